@@ -197,6 +197,49 @@ def run_tlc(module, cfg, workdir, name=None, workers=16, timeout=600, env=None, 
     return r
 
 
+def simulate_behaviours(module, cfg, workdir, n, name=None, depth=12, seed=0, workers=4, timeout=300, tag='BEH'):
+    """Run TLC -simulate, read PrintT'ed <<tag, json>> lines from its stdout until n were seen, then kill it
+    (measured: num= does not bound a multi-worker simulation)."""
+    name = name or module + '_sim'
+    os.makedirs(workdir, exist_ok=True)
+    t = re.sub(r'\W', '_', name)
+    cfg_path = os.path.join(workdir, t + '.cfg')
+    with open(cfg_path, 'w') as f:
+        f.write(cfg)
+    meta = os.path.join(workdir, 'meta_' + t)
+    shutil.rmtree(meta, ignore_errors=True)
+    cmd = ['java', '-XX:+UseParallelGC', '-Xss16m', '-cp', JAR_CP, 'tlc2.TLC', '-workers', str(workers),
+           '-metadir', meta, '-noGenerateSpecTE', '-config', cfg_path, '-simulate', 'num=%d' % (n * 4),
+           '-depth', str(depth), '-seed', str(seed), os.path.join(SPEC_DIR, module + '.tla')]
+    t0 = time.time()
+    p = subprocess.Popen(cmd, cwd=SPEC_DIR, stdout=subprocess.PIPE, stderr=subprocess.STDOUT, text=True,
+                         errors='replace')
+    out = []
+    head = []
+    prefix = '<<"%s"' % tag
+    try:
+        for line in p.stdout:
+            if line.startswith(prefix):
+                out.append(parse_tla_value(line)[0])
+                if len(out) >= n:
+                    break
+            elif len(head) < 200:
+                head.append(line)
+            if time.time() - t0 > timeout:
+                break
+    finally:
+        p.kill()
+        p.wait()
+        shutil.rmtree(meta, ignore_errors=True)
+    text = ''.join(head)
+    if not out:
+        raise TLCError('simulation of %s exported nothing:\n%s' % (name, text[-3000:]))
+    if re.search(r'Error: ', text):
+        raise TLCError('simulation of %s failed:\n%s' % (name, text[-3000:]))
+    return out, {'name': name, 'mode': 'simulate', 'exported': len(out), 'depth': depth, 'seed': seed,
+                 'wall_s': round(time.time() - t0, 2)}
+
+
 VAL_CFG = 'SPECIFICATION Spec\nCHECK_DEADLOCK FALSE\n'
 
 
